@@ -44,7 +44,9 @@ Record hnd := { h_base : nat;
 
 Inductive fin := FUnset | FNil | FSet (hs : list nat) (succ : nat).
 
-Record st := { s_ref : nat; s_fin : fin; s_open : bool;
+Record st := { s_ref : nat;             (* number of references (low bits of refCount) *)
+               s_ret : bool;            (* the `retired` bit of refCount *)
+               s_fin : fin; s_open : bool;
                s_segs : list nat;      (* handle ids, oldest first, last = tail *)
                s_min : nat }.          (* MinIndex of the first segment *)
 
@@ -119,7 +121,7 @@ Fixpoint upd {A} (l : list A) (i : nat) (x : A) : list A :=
   | a :: r, S j => a :: upd r j x
   end.
 
-Definition dst : st := {| s_ref := 0; s_fin := FUnset; s_open := false; s_segs := []; s_min := 0 |}.
+Definition dst : st := {| s_ref := 0; s_ret := false; s_fin := FUnset; s_open := false; s_segs := []; s_min := 0 |}.
 Definition dh : hnd := {| h_base := 0; h_ents := []; h_wr := 0; h_syn := 0; h_cnt := 0;
                           h_sealed := false; h_closes := 0 |}.
 
@@ -160,9 +162,12 @@ Definition set_meta (g : shared) (m s : nat) : shared :=
      g_hnds := g_hnds g; g_meta_closes := m; g_stable := s |}.
 
 Definition st_ref (s : st) (r : nat) : st :=
-  {| s_ref := r; s_fin := s_fin s; s_open := s_open s; s_segs := s_segs s; s_min := s_min s |}.
+  {| s_ref := r; s_ret := s_ret s; s_fin := s_fin s; s_open := s_open s; s_segs := s_segs s; s_min := s_min s |}.
 Definition st_fin (s : st) (f : fin) : st :=
-  {| s_ref := s_ref s; s_fin := f; s_open := s_open s; s_segs := s_segs s; s_min := s_min s |}.
+  {| s_ref := s_ref s; s_ret := s_ret s; s_fin := f; s_open := s_open s; s_segs := s_segs s; s_min := s_min s |}.
+(* state.retire: store the finalizer, then add the retired bit (the add is the visible action) *)
+Definition st_retire (s : st) (f : fin) : st :=
+  {| s_ref := s_ref s; s_ret := true; s_fin := f; s_open := s_open s; s_segs := s_segs s; s_min := s_min s |}.
 
 Definition upd_st (g : shared) (x : nat) (s : st) : shared := set_states g (upd (g_states g) x s).
 Definition upd_h (g : shared) (h : nat) (v : hnd) : shared := set_hnds g (upd (g_hnds g) h v).
@@ -197,7 +202,13 @@ Fixpoint seg_for (g : shared) (segs : list nat) (i : nat) (acc : option nat) : o
 (* first half of getLog: the in-memory lookups (commitIdx / segment ranges) *)
 Definition find_log (g : shared) (s : st) (i : nat) : option nat :=
   let f := first_index g s in
-  if (0 <? f) && (f <=? i) && (i <=? last_index g s) then seg_for g (s_segs s) i None else None.
+  if (0 <? f) && (f <=? i) && (i <=? last_index g s) then
+    match seg_for g (s_segs s) i None with
+    | Some h => (* Writer.OffsetForFrame: idx > commitIdx of that file => not found *)
+                if i - h_base (geth g h) <? h_cnt (geth g h) then Some h else None
+    | None => None
+    end
+  else None.
 (* second half: offsets load, readFrame through the handle *)
 Definition read_log (g : shared) (h i : nat) : outcome :=
   let v := geth g h in
@@ -230,9 +241,9 @@ Definition new_hnd (base : nat) : hnd :=
   {| h_base := base; h_ents := []; h_wr := 0; h_syn := 0; h_cnt := 0; h_sealed := false; h_closes := 0 |}.
 (* a new state is created holding the reference of its predecessor *)
 Definition mk_state (segs : list nat) (mn : nat) : st :=
-  {| s_ref := 1; s_fin := FUnset; s_open := true; s_segs := segs; s_min := mn |}.
+  {| s_ref := 1; s_ret := false; s_fin := FUnset; s_open := true; s_segs := segs; s_min := mn |}.
 Definition empty_state : st :=
-  {| s_ref := 1; s_fin := FUnset; s_open := false; s_segs := []; s_min := 0 |}.
+  {| s_ref := 1; s_ret := false; s_fin := FUnset; s_open := false; s_segs := []; s_min := 0 |}.
 
 (* publish a new state object and make it current *)
 Definition publish (g : shared) (s : st) : shared :=
@@ -442,11 +453,11 @@ Definition step_thread (g : shared) (me : tid) (th : thread) : option (shared * 
                               end
                        end in
       Some (g', setpc th (PM4 y (FSet hs (g_cur g')) k))
-  | PM4 y f k => Some (upd_st g y (st_fin (getst g y) f), setpc th (PRel y (Ok 0) k))
+  | PM4 y f k => Some (upd_st g y (st_retire (getst g y) f), setpc th (PRel y (Ok 0) k))
   | PRel x r k =>
       let s := getst g x in
       let g' := upd_st g x (st_ref s (s_ref s - 1)) in
-      if s_ref s =? 1 then Some (g', setpc th (PLast x r k))
+      if (s_ref s =? 1) && s_ret s then Some (g', setpc th (PLast x r k))   (* new == retired *)
       else Some (g', continue th r k)
   | PLast x r k =>
       let s := getst g x in
@@ -478,7 +489,7 @@ Definition step_thread (g : shared) (me : tid) (th : thread) : option (shared * 
   | PCSwapped x e =>
       let s := getst g x in
       if negb (s_open s) then Some (g, panic th)       (* s.segments.Len() on nil *)
-      else Some (upd_st g x (st_fin s (FSet (s_segs s) e)), setpc th (PC8 x))
+      else Some (upd_st g x (st_retire s (FSet (s_segs s) e)), setpc th (PC8 x))
   | PC8 x => Some (set_meta g (S (g_meta_closes g)) (g_stable g), setpc th (PRel x (Ok 0) KUnlock))
   (* ---- rotation goroutine ---- *)
   | PRIdle => if g_trig g then Some (set_trig g false (g_trig_closed g), setpc th PRRecv)
@@ -516,7 +527,7 @@ Definition step (s : sys) (t : tid) : option sys :=
 Definition init_shared : shared :=
   {| g_closed := false; g_mu := None; g_trig := false; g_trig_closed := false;
      g_await := None; g_chans := []; g_cur := 0;
-     g_states := [{| s_ref := 0; s_fin := FUnset; s_open := true; s_segs := [0]; s_min := 1 |}];
+     g_states := [{| s_ref := 0; s_ret := false; s_fin := FUnset; s_open := true; s_segs := [0]; s_min := 1 |}];
      g_hnds := [new_hnd 1]; g_meta_closes := 0; g_stable := 0 |}.
 
 Definition caller (p : list op) : thread := {| t_rot := false; t_prog := p; t_outs := []; t_pc := PIdle |}.
